@@ -493,7 +493,7 @@ namespace vw
                 }
             w.ops.push_back(s);
         };
-        const double psnap = mode == MODE_C16 ? 0.7 : ((mode == MODE_C08 || mode == MODE_C10) ? 0.3 : 0.1);
+        const double psnap = mode == MODE_C16 ? 0.7 : ((mode == MODE_C08 || mode == MODE_C10 || mode == MODE_C19) ? 0.3 : 0.1);
         const bool want_single = mode == MODE_C19 || mode == MODE_C10;
         // Besides the usual shapes below, some worlds get a free-form sequence: any 1..5 operators that the
         // library's own rules accept (a router somewhere; the spanning-tree resolver only on a single-direction
@@ -1338,8 +1338,10 @@ namespace vw
                         ++C["p.basins_on_stale_routes"];
                         break;
                     }
+                    auto judge = [&](graph_t& g, const decltype(labels)& labels) -> std::string
+                    {
                     // independent partition model: follow receivers to the root
-                    const auto& im = main.graph->impl();
+                    const auto& im = g.impl();
                     const std::size_t nomark = std::numeric_limits<std::size_t>::max();
                     std::vector<std::size_t> root(n);
                     bool cyc = false;
@@ -1356,7 +1358,7 @@ namespace vw
                         root[i] = u;
                     }
                     if (cyc)
-                        break;  // cycles are C01's business
+                        return std::string();  // cycles are C01's business
                     auto is_masked = [&](std::size_t i) { return !mask.empty() && mask[i]; };
                     std::vector<std::size_t> pos(n, 0);
                     for (std::size_t k = 0; k < n; ++k)
@@ -1393,7 +1395,7 @@ namespace vw
                         bad = std::to_string(distinct.size()) + " distinct labels for " + std::to_string(roots.size()) + " unmasked outlets";
                     if (bad.empty())
                     {
-                        std::vector<std::size_t> pits = main.graph->impl_ptr()->pits();
+                        std::vector<std::size_t> pits = g.impl_ptr()->pits();
                         std::set<std::size_t> bset(base.begin(), base.end());
                         std::vector<std::size_t> want;
                         for (auto rt : roots)
@@ -1405,6 +1407,27 @@ namespace vw
                             bad = "pits() is not the set of outlets that are not base levels (" + std::to_string(pits.size()) + " vs "
                                   + std::to_string(want.size()) + ")";
                     }
+                        return bad;
+                    };
+                    std::string bad = judge(*main.graph, labels);
+                    // snapshot graphs are single-direction flow graphs too: the same holds for their basins()
+                    if (bad.empty())
+                        for (auto& p : prefixes)
+                        {
+                            if (!p.graph)
+                                continue;
+                            graph_t& snap = main.graph->graph_snapshot(p.name);
+                            if (!snap.impl().single_flow())
+                                continue;
+                            auto slabels = snap.basins();
+                            std::string sb = judge(snap, slabels);
+                            ++C["p.basins_on_snapshot_judged"];
+                            if (!sb.empty())
+                            {
+                                bad = "snapshot '" + p.name + "': " + sb;
+                                break;
+                            }
+                        }
                     if (state_changes >= 2)
                         out.nontrivial = true;
                     if (!bad.empty())
